@@ -500,6 +500,73 @@ def addRequestInfo (h : HttpReq) (rq : Req) : Req :=
     path := h.path,
     sni := h.tls.getD [] }
 
+/-! ## Where a device's authentication settings come from
+
+The `Auth` of a device is not written by hand: it is converted from the backend's
+`AuthenticationSettings` message (`backendpb`: `AuthenticationSettings.toInternal`,
+`dohPasswordToInternal`), written to the profile cache file by a full synchronisation (`filecachepb`:
+`authToProtobuf`, `dohPasswordToProtobuf`) and read back from it after a restart (`filecachepb`:
+`AuthenticationSettings.toInternal`).  A bcrypt hash is the set of passwords it accepts. -/
+
+/-- The `AuthenticationSettings` message of the backend and, with the same fields, of the cache file;
+an absent message is `none`.  `hash = none`: the `doh_password_hash` oneof is not set. -/
+structure MsgAuth where
+  dohOnly : Bool
+  hash : Option (Str → Bool)
+
+/-- `agdpasswd.Authenticator` values the converters produce. -/
+inductive PwHash
+  | allow
+  | bcrypt (accepts : Str → Bool)
+
+/-- `agd.AuthSettings`. -/
+structure AuthSettings where
+  enabled : Bool
+  dohOnly : Bool
+  hash : PwHash
+
+/-- What `authenticate` reads of the settings (`PasswordHash.Authenticate`). -/
+def AuthSettings.toAuth (a : AuthSettings) : Auth :=
+  { enabled := a.enabled, dohOnly := a.dohOnly,
+    check := match a.hash with
+      | .allow => fun _ => true
+      | .bcrypt c => c }
+
+/-- `dohPasswordToInternal` (both packages): no hash ⇒ the allow-all authenticator. -/
+def hashOfMsg : Option (Str → Bool) → PwHash
+  | none => .allow
+  | some c => .bcrypt c
+
+/-- `AuthenticationSettings.toInternal` (both packages): no message ⇒ authentication disabled; a
+message ⇒ enabled, DoH-only as sent. -/
+def authOfMsg : Option MsgAuth → AuthSettings
+  | none => { enabled := false, dohOnly := false, hash := .allow }
+  | some m => { enabled := true, dohOnly := m.dohOnly, hash := hashOfMsg m.hash }
+
+/-- `filecachepb.dohPasswordToProtobuf`. -/
+def msgOfHash : PwHash → Option (Str → Bool)
+  | .allow => none
+  | .bcrypt c => some c
+
+/-- `filecachepb.authToProtobuf`: nothing is written for disabled settings; enabled settings are
+written with their DoH-only flag and their hash, whether or not there is a hash. -/
+def cacheOfAuth (a : AuthSettings) : Option MsgAuth :=
+  if !a.enabled then none else some { dohOnly := a.dohOnly, hash := msgOfHash a.hash }
+
+/-- Settings written to the cache file and read back after a restart. -/
+def throughCache (a : AuthSettings) : AuthSettings := authOfMsg (cacheOfAuth a)
+
+/-- Where the profile database has a device from. -/
+inductive Source | backend | cacheFile
+  deriving DecidableEq, Repr
+
+/-- The settings the device finder sees for a device whose backend message said `m`. -/
+def settingsFrom : Source → Option MsgAuth → AuthSettings
+  | .backend, m => authOfMsg m
+  | .cacheFile, m => throughCache (authOfMsg m)
+
+def authFrom (src : Source) (m : Option MsgAuth) : Auth := (settingsFrom src m).toAuth
+
 /-! ## What the rest of the pipeline sees -/
 
 /-- `ratelimitmw.handleDeviceResult`: does the request continue? -/
